@@ -457,6 +457,7 @@ func (v *Verifier) VerifyFunc(fc *FuncContract) (res *FuncResult) {
 		}
 		env.vars[l.Name] = lv
 	}
+	v.subtypePre(ex, fn, env)
 	var reqs []Term
 	for _, rq := range fc.Requires {
 		t, err := env.Bool(rq.E)
@@ -471,6 +472,9 @@ func (v *Verifier) VerifyFunc(fc *FuncContract) (res *FuncResult) {
 	vo.Kind = "vacuity"
 
 	outReach, results, outMem := ex.run("true", mem)
+	for i := 0; i < len(ex.deferred); i++ {
+		ex.deferred[i]()
+	}
 
 	post := &Env{c: c, v: v, vars: map[string]Val{}, mem: outMem, old: env, pkg: fn.Pkg.Pkg, ghosts: ex.ghostKeys}
 	for k, val := range env.vars {
@@ -617,15 +621,68 @@ func (v *Verifier) VerifyFunc(fc *FuncContract) (res *FuncResult) {
 // interface with a contract for that method, the interface contract must
 // follow (behavioural subtyping); self is the boxed receiver.
 func (v *Verifier) subtypeObligations(ex *Exec, fn *ssa.Function, pre, post *Env, reach Term, results []Val) {
+	if tag := ex.fc.Options["no-subtype"]; tag != "" {
+		ex.c.trusted[tag+": the interface-level meaning of "+ex.fname+" is not derived from its contract (heap-dependent implementation)"] = true
+		return
+	}
+	v.forIfaceContracts(ex, fn, pre, post, results, func(ifc *FuncContract, penv, qenv *Env) {
+		for _, en := range ifc.Ensures {
+			t, err := qenv.Goal(en.E)
+			if err != nil {
+				unsup("interface contract %s: %v", ifc.Full(), err)
+			}
+			ex.addObl("subtype:"+ifc.Full(), en.Label, reach, t, fn.Pos(), en.Text, false)
+		}
+		// the frame of the interface contract is what callers havoc: the
+		// implementation must stay inside it
+		if ifc.HasMod {
+			ex.frameCheckWith(penv, ex.entryMem, qenv.mem, reach, ifc.Modifies, "subtype-frame:"+ifc.Full(), ifc.Full())
+		}
+	})
+}
+
+// subtypePre: the interface contract's precondition is all a caller
+// establishes; each precondition of the implementation must follow from it.
+func (v *Verifier) subtypePre(ex *Exec, fn *ssa.Function, env *Env) {
+	if len(ex.fc.Requires) == 0 || ex.fc.Options["no-subtype"] != "" {
+		return
+	}
+	v.forIfaceContracts(ex, fn, env, nil, nil, func(ifc *FuncContract, penv, _ *Env) {
+		if tag := ex.fc.Options["assume-pre"]; tag != "" {
+			ex.c.trusted[tag+": precondition of "+ex.fname+" is assumed where it is called through "+ifc.Full()] = true
+			return
+		}
+		var guard []Term
+		for _, rq := range ifc.Requires {
+			t, err := penv.Bool(rq.E)
+			if err != nil {
+				unsup("interface contract %s requires: %v", ifc.Full(), err)
+			}
+			guard = append(guard, t)
+		}
+		for _, rq := range ex.fc.Requires {
+			if strings.HasPrefix(rq.Label, "assume:") {
+				ex.c.trusted[strings.TrimPrefix(rq.Label, "assume:")+": precondition of "+ex.fname+" is assumed where it is called through "+ifc.Full()+": "+rq.Text] = true
+				continue
+			}
+			t, err := env.Goal(rq.E)
+			if err != nil {
+				unsup("requires: %v", err)
+			}
+			ex.addObl("subtype-pre:"+ifc.Full(), rq.Label, and(guard...), t, fn.Pos(), rq.Text, false)
+		}
+	})
+}
+
+// forIfaceContracts calls f for every interface contract that the method fn
+// implements, with environments in which the interface method's parameter
+// names and `self` (the boxed receiver) are bound. post may be nil.
+func (v *Verifier) forIfaceContracts(ex *Exec, fn *ssa.Function, pre, post *Env, results []Val, f func(ifc *FuncContract, penv, qenv *Env)) {
 	sig := fn.Signature
 	if sig.Recv() == nil || len(fn.Params) == 0 {
 		return
 	}
 	recvT := sig.Recv().Type()
-	if tag := ex.fc.Options["no-subtype"]; tag != "" {
-		ex.c.trusted[tag+": the interface-level meaning of "+ex.fname+" is not derived from its contract (heap-dependent implementation)"] = true
-		return
-	}
 	var keys []string
 	for k, fc := range v.cs.Funcs {
 		if fc.Iface {
@@ -660,46 +717,52 @@ func (v *Verifier) subtypeObligations(ex *Exec, fn *ssa.Function, pre, post *Env
 		self := ex.c.box(ex.vals[fn.Params[0]], recvT)
 		self.Typ = it
 		penv := pre.child()
-		qenv := post.child()
-		qenv.old = penv
+		var qenv *Env
+		if post != nil {
+			qenv = post.child()
+			qenv.old = penv
+			qenv.vars["self"] = self
+		}
 		penv.vars["self"] = self
-		qenv.vars["self"] = self
 		for i := 0; i < msig.Params().Len() && i+1 < len(fn.Params); i++ {
 			a := ex.vals[fn.Params[i+1]]
 			if n := msig.Params().At(i).Name(); n != "" && n != "_" {
 				penv.vars[n] = a
-				qenv.vars[n] = a
+				if qenv != nil {
+					qenv.vars[n] = a
+				}
 			}
 			penv.vars[fmt.Sprintf("arg%d", i)] = a
-			qenv.vars[fmt.Sprintf("arg%d", i)] = a
-		}
-		for i, rv := range results {
-			if n := msig.Results().At(i).Name(); n != "" && n != "_" {
-				qenv.vars[n] = rv
+			if qenv != nil {
+				qenv.vars[fmt.Sprintf("arg%d", i)] = a
 			}
 		}
-		for _, en := range ifc.Ensures {
-			t, err := qenv.Goal(en.E)
-			if err != nil {
-				unsup("interface contract %s: %v", ifc.Full(), err)
+		if qenv != nil {
+			for i, rv := range results {
+				if n := msig.Results().At(i).Name(); n != "" && n != "_" {
+					qenv.vars[n] = rv
+				}
 			}
-			ex.addObl("subtype:"+ifc.Full(), en.Label, reach, t, fn.Pos(), en.Text, false)
 		}
+		f(ifc, penv, qenv)
 	}
 }
 
 // frameCheck: every memory array that differs between entry and exit differs
 // only at the cells listed in `modifies` or inside freshly allocated objects.
 func (ex *Exec) frameCheck(env *Env, in, out *MemState, reach Term) {
+	ex.frameCheckWith(env, in, out, reach, ex.fc.Modifies, "frame", ex.fc.Full())
+}
+
+func (ex *Exec) frameCheckWith(env *Env, in, out *MemState, reach Term, modifies []string, kind, who string) {
 	c := ex.c
-	fc := ex.fc
 	everything := false
 	wholeTypes := map[string]bool{}
 	wholeMaps := map[string]bool{}
 	var regs []string
 	var listed []cell
 	mapRefs := map[string][]Term{}
-	for _, m := range fc.Modifies {
+	for _, m := range modifies {
 		switch {
 		case m == "everything":
 			everything = true
@@ -732,7 +795,7 @@ func (ex *Exec) frameCheck(env *Env, in, out *MemState, reach Term) {
 			}
 			mapRefs[typeKey(mv.Typ.Underlying())] = append(mapRefs[typeKey(mv.Typ.Underlying())], mv.T)
 		default:
-			listed = append(listed, ex.lvalueCells(env, m, fc.Full())...)
+			listed = append(listed, ex.lvalueCells(env, m, who)...)
 		}
 	}
 	if everything {
@@ -740,7 +803,7 @@ func (ex *Exec) frameCheck(env *Env, in, out *MemState, reach Term) {
 	}
 	regions := ex.regionsOf(env.pkg, regs)
 	if out.epoch != in.epoch {
-		ex.addObl("frame", "epoch", reach, "false", ex.fn.Pos(), "the function (or a callee without contract) may modify everything, but its contract has a finite modifies clause", false)
+		ex.addObl(kind, "epoch", reach, "false", ex.fn.Pos(), "the function (or a callee without contract) may modify everything, but its contract has a finite modifies clause", false)
 		return
 	}
 	var ks []string
@@ -780,7 +843,7 @@ func (ex *Exec) frameCheck(env *Env, in, out *MemState, reach Term) {
 		// cells of objects allocated by this function are invisible to the caller
 		allowed = append(allowed, app("isfresh", app("froot", a)))
 		goal := or(append(allowed, eq(app("select", after, a), app("select", before, a)))...)
-		ex.addObl("frame", sanitize(strings.TrimPrefix(k, "M ")), reach, goal, ex.fn.Pos(), "only the cells in `modifies` change in "+k, false)
+		ex.addObl(kind, sanitize(strings.TrimPrefix(k, "M ")), reach, goal, ex.fn.Pos(), "only the cells in `modifies` of "+who+" change in "+k, false)
 	}
 }
 
